@@ -92,7 +92,13 @@ let history toks =
   let pb = next () in
   let bit i = pb.[i] = '1' in
   let p = { p_dighdr = bit 0; p_range = bit 1; p_clen = bit 2; p_mount = bit 3; p_referrers = bit 4 } in
-  let _plain = next () in
+  let plain = next () in
+  (* options token: <plain bit>g.w.r.t.m<MaxMetadataBytes>; only the limit matters to the model *)
+  let maxmeta =
+    match String.rindex_opt plain 'm' with
+    | Some i -> (try int_of_string (String.sub plain (i + 1) (String.length plain - i - 1)) with _ -> 0)
+    | None -> 0 in
+  let limit = eff_limit (n_of_int maxmeta) in
   let rst = match nexti () with 0 -> RSUnknown | 1 -> RSSupported | _ -> RSUnsupported in
   let nm = nexti () in
   let mts = List.init nm (fun _ -> str_of_hex (next ())) in
@@ -152,7 +158,7 @@ let history toks =
     | "bresolve" -> OBlobResolve (str_of_hex (next ()))
     | "bfetchref" -> OBlobFetchRef (str_of_hex (next ()))
     | x -> failwith ("op " ^ x)) in
-  let (_, out) = run_history h parse_mt subject_of main other mts p kor other_blobs rst ops in
+  let (_, out) = run_history h parse_mt subject_of main other mts limit p kor other_blobs rst ops in
   let bad = ref 0 in
   let parts = List.map (fun (tr, res) ->
     let rs = show_result res in
